@@ -9,6 +9,7 @@ Does not decide: bitmap word-boundary behaviour, NULL-under-nonzero bits, per-ro
 import re
 
 from tmpl import site, suffix, done_sites, start_sites, origin_locals
+from rules import c14_types
 
 OPS = 'array::ops::<impl array::ArrayImpl>::'
 INT = ('i8', 'i16', 'i32', 'i64', 'i128', 'isize')
@@ -252,6 +253,8 @@ def run(ctx):
         ctx.floor(R5, n_cast, 6, 'numeric `as` casts in ArrayImpl::cast kernels')
 
     clear_null_rule(ctx, prog, 'C14-R6')
+    c14_types.run(ctx, prog, 'C14-R13')
+    c14_types.evaluator_passes_nothing_through(ctx, prog, 'C14-R14')
 
     R7 = 'C14-R7'
     ctx.rule(R7, 'raw-slot kernels are infallible: a function that iterates raw slots (raw_iter) applies no fallible per-slot function '
